@@ -64,6 +64,18 @@ theorem resolver_shared_expected :
     Gen.C05ResolverShared.fieldWrites = [] ∧
     Gen.C05ResolverShared.pkgVarWrites = [] := ⟨rfl, rfl, rfl⟩
 
+/-- The functions that put something into an LRU cache read, of the resolver's own state, only
+the client and the caches themselves: what they store is a function of the cache key and the
+universe, not of the root or of anything else a single `Resolve` call carries (the premise of
+`Lru.Memo`: `store` depends on the key alone). State reached through methods they call is not
+followed. -/
+theorem cache_fillers_read_only_client_and_caches :
+    Gen.C05ResolverShared.cacheFillerReads = [
+      ("pypi", "provider.getConstraint", "provider.constraintCache"),
+      ("pypi", "provider.matchingVersionsWithPrereleases", "provider.prereleaseMatchCache"),
+      ("pypi", "provider.matchingVersionsWithPrereleases", "provider.rc"),
+      ("pypi", "provider.parseMarker", "provider.markerCache")] := rfl
+
 /-- The three caches are created with a positive capacity (so `Add` never dereferences a nil tail). -/
 theorem lru_caps_positive : ∀ c ∈ Gen.C05LruCaps.caps, 0 < c.2 := by decide
 
@@ -302,6 +314,7 @@ TIES (DESIGN 3.3) - theorem : model definitions unfolded ; Gen constants used ; 
 no_client_slice_writes            : - ; Gen.C05ClientSliceWrites.sites ; translator (taint pass) regenerated every run
 taint_pass_nonvacuous             : - ; Gen.C05ClientSliceWrites.{sources,clones,functionsAnalysed} ; translator
 resolver_shared_expected          : - ; Gen.C05ResolverShared.{fields,fieldWrites,pkgVarWrites} ; translator
+cache_fillers_read_only_client_and_caches : - ; Gen.C05ResolverShared.cacheFillerReads ; translator (premise of Lru.Memo)
 lru_caps_positive, lru_caps_cover_cache_fields, pypi_fresh_caches_ok : Lru.new ; Gen.C05LruCaps.caps ; translator
 lru_model_agrees_with_recorded_runs, lru_recorded_runs_nonvacuous : Lru.{new,get,add,replay} ; Gen.C05LruTraces.traces ;
                                     runs of the real lru.go recorded by the translator, replayed in the kernel
